@@ -190,6 +190,11 @@ def run(F, chk):
     loops = [n for n in walk(save["body"]) if n["k"] in ("For", "RangeFor")]
     put_loop = [l for l in loops if any(x["k"] == "Call" and x.get("short") == "Put" and x.get("virt") for x in walk(l["body"]))]
     patch_loop = [l for l in loops if l not in put_loop and any(is_stream_write(x) for x in walk(l["body"]))]
+    # the back-patch is what follows the seek; a loop that writes the footer words from a small table comes before it
+    order_ = {id(x): i_ for i_, x in enumerate(walk(save["body"]))}
+    seeks_ = [order_[id(x)] for x in walk(save["body"]) if x["k"] == "Call" and x.get("short") == "seekp"]
+    if seeks_ and len(patch_loop) > 1:
+        patch_loop = [l for l in patch_loop if order_[id(l)] > min(seeks_)]
     # locals that are defined once stand for their initialiser (a hoisted `numBlocks`, a helper's parameter bound to the
     # caller's vector, the vector a helper returned)
     assigned_ = {x["l"]["id"] for x in walk(save["body"]) if x["k"] == "Assign" and is_node(x["l"]) and x["l"]["k"] == "Ref"}
@@ -475,6 +480,7 @@ def run(F, chk):
             continue
         if not any(n["k"] == "Call" and n.get("fid") in setters for n in walk(fn["body"])):
             continue
+        fn = F.inl(fn)  # the back-patch (test + reset) may live in a private helper
         pos_ids = _pos_expr(fn)
 
         def is_pos(e):
@@ -587,4 +593,25 @@ def _patch_ok(loop, save):
     arg = w["args"][1]
     if loop["k"] == "RangeFor":
         return captured is not None and any(x["k"] == "Ref" and x.get("id") == loop["var"]["id"] for x in walk(arg))
-    return captured is not None and captured in show(arg)
+    if captured is not None and captured in show(arg):
+        return True
+    # the vector may have been handed on: `const auto blockSizes = writeBlocks();` where the helper returns the captured vector
+    assigned_ = {x["l"]["id"] for x in walk(save["body"]) if x["k"] == "Assign" and is_node(x["l"]) and x["l"]["k"] == "Ref"}
+    def_of = {}
+    for d_ in walk(save["body"]):
+        if d_["k"] == "Decl":
+            for v_ in d_.get("vars", []):
+                if is_node(v_.get("init")) and v_["id"] not in assigned_:
+                    def_of[v_["id"]] = v_["init"]
+
+    def _res(e, depth=0):
+        while is_node(e) and (e["k"] == "Cast" or (e["k"] == "Construct" and e.get("copy"))) and \
+                (e.get("e") is not None or len(e.get("args", [])) == 1):
+            e = e["e"] if e.get("e") is not None else e["args"][0]
+        if is_node(e) and e["k"] == "Ref" and show(e) == captured:
+            return e
+        if depth < 6 and is_node(e) and e["k"] == "Ref" and e.get("id") in def_of:
+            return _res(def_of[e["id"]], depth + 1)
+        return e
+
+    return captured is not None and any(x["k"] == "Ref" and show(_res(x)) == captured for x in walk(arg))
